@@ -71,7 +71,12 @@ def short_strings(alphabet, maxlen):
 SUB12 = '09AZaz -.\n\xa0٣'
 
 
-def module_states(name, tier, nseeds=None, with_short=True):
+def e2_accepts(m, x):
+    from . import e2
+    return e2._accepts(m, x, {})
+
+
+def module_states(name, tier, nseeds=None, with_short=True, with_synth=True):
     """States for one module: <=1 deviation (quick) / full alphabet and <=2 deviations from two
     seeds (thorough) around the module's seeds in both spellings, plus all short strings."""
     from . import seeds as seedmod
@@ -99,6 +104,28 @@ def module_states(name, tier, nseeds=None, with_short=True):
         for k, val in st2.items():
             if k not in states:
                 states[k] = val
+    if with_synth:
+        from . import synth, core
+        m = core.modules()[name]
+        dn = synth.date_numbers(name, m, sv, raw=True)
+        valid_dates = [x for x in dn if e2_accepts(m, x)]
+        # valid numbers carrying special dates become additional start states (deviation 0 relative to
+        # themselves); the raw candidates are plain states
+        extra_starts = valid_dates[:6 if quick else 40]
+        st3, tr3 = explore(extra_starts, alpha, bound=1, whole=False)
+        transitions += tr3
+        for k, val in st3.items():
+            if k not in states:
+                states[k] = (val[0] + 1, ('synth:date+' + val[1]) if val[1] else 'synth:date', val[2])
+        for x in dn:
+            transitions += 1
+            if x not in states:
+                states[x] = (1, 'synth:date', '')
+        for x in synth.registry_inputs(name, m, sv, limit=250 if quick else 3000,
+                                       funcs=('validate', 'format', 'split', 'info')):
+            transitions += 1
+            if x not in states:
+                states[x] = (1, 'synth:registry', '')
     if with_short:
         for x in short_strings(alpha, 2 if quick else 2):
             transitions += 1
